@@ -39,6 +39,18 @@ def bare(n, t):
     return v
 
 
+class IdSet:
+    """membership by identity (expression nodes are dicts)"""
+    def __init__(self, items):
+        self.ids = {id(x) for x in items}
+
+    def __contains__(self, x):
+        return id(x) in self.ids
+
+
+CORE_LEAVES = []
+
+
 def rec(n, ty):
     v = var(n, "U")
     v["bare"] = True
@@ -49,11 +61,15 @@ def rec(n, ty):
 def leaves():
     # typed variables, literals, a fixed-length string variable and the two kinds of record member
     return [var("A", "I"), var("B", "S"), var("S", "$"), lit("I", 1), lit("$", "x"), lit("D", 2),
-            bare("FX", "$"), bare("REC.S", "$"), bare("REC.X", "I"), rec("REC", "RT"), rec("RE2", "RU")]
+            bare("FX", "$"), bare("REC.S", "$"), bare("REC.X", "I"), rec("REC", "RT"), rec("RE2", "RU"),
+            # calls of functions that are not defined anywhere: a string / a number by their suffix
+            ucall("UFS$", ["n"], "s", lit("I", 1)), ucall("UFN%", ["n"], "n", lit("I", 1))]
 
 
 def exprs(tier, rng):
     L = leaves()
+    del CORE_LEAVES[:]
+    CORE_LEAVES.extend([L[0], L[2]])
     ops = ["+", "-", "*", "/", "mod", "and", "or", "=", "<", "<>"]
     d1 = list(L)
     for op in ops:
@@ -128,6 +144,8 @@ def positions(e):
     out.append(("for-step", ["FOR I% = 1 TO 2 STEP (" + t + ") * 0 + 1", "NEXT"],
                 {"k": "need", "e": bin_("+", bin_("*", par(e), lit("I", 0)), lit("I", 1)), "kind": "n"}))
     out.append(("for-lower", ["FOR I% = " + t + " TO 0", "NEXT"], {"k": "need", "e": e, "kind": "n"}))
+    out.append(("dim-lower", ["DIM DL%(" + t + " TO 9)"], {"k": "need", "e": e, "kind": "n"}))
+    out.append(("redim-bound", ["REDIM DV%(1 TO " + t + ")"], {"k": "need", "e": e, "kind": "n"}))
     out.append(("for-step-bare", ["FOR I% = 1 TO 2 STEP " + t, "NEXT"], {"k": "need", "e": e, "kind": "n"}))
     # whole records: assignment and by-reference passing need a record of the same TYPE
     out.append(("assign-rec", ["RE3 = " + t], {"k": "need", "e": e, "kind": "u:RT"}))
@@ -340,6 +358,9 @@ def run(tier, replay):
     recs, meta = [], {}
     # ---- (a) kinds at positions
     d1, d2 = exprs(tier, rng)
+    d2_ids = IdSet(d2)
+    # binary expressions that keep all positions in quick: one operand is the INTEGER variable or the string variable
+    full_ids = {id(e) for e in d1 if e.get("k") == "bin" and (e["l"] in CORE_LEAVES or e["r"] in CORE_LEAVES) and rng.random() < 0.25}
     cases = []
     for e in d1 + d2:
         try:
@@ -347,7 +368,12 @@ def run(tier, replay):
         except render.RenderError:
             continue
         if tier == "quick":
-            ps = rng.sample(ps, 5) if e in d2 else ps
+            # quick: every position for the simple expressions (a leaf, one operator over leaves with a leaf of each kind,
+            # every built-in signature); twelve positions drawn per remaining binary pair, five per random deep expression
+            if e in d2_ids:
+                ps = rng.sample(ps, 5)
+            elif e.get("k") == "bin" and id(e) not in full_ids:
+                ps = rng.sample(ps, 12)
         for name, lines, stmt in ps:
             text = "\r\n".join(PRE + lines + ["PRINT \"end\""] + POST) + "\r\n"
             cases.append((name, text, stmt, len(PRE) + 1, len(PRE) + len(lines)))
